@@ -3,12 +3,13 @@
 import os
 import re
 rows = {}
-for f in ("/verif/sweep-thorough/summary.txt", "/verif/sweep-thorough/rerun/summary.txt"):
+for f in ("/verif/sweep-thorough/summary.txt", "/verif/sweep-thorough/rerun/summary.txt", "/verif/sweep-thorough/rerun2/summary.txt",
+          "/verif/sweep-thorough/rerun2b/summary.txt"):
     if os.path.exists(f):
         for line in open(f):
             m = re.match(r"(C\d+) thorough exit=(\d+) (\d+)s", line)
             if m:
-                rows[m.group(1)] = (int(m.group(2)), int(m.group(3)), "rerun after a correction" if "rerun" in f else "")
+                rows[m.group(1)] = (int(m.group(2)), int(m.group(3)), ("rerun after a correction" if f.endswith("rerun/summary.txt") else "run again after the check was extended") if "rerun" in f else "")
 lines = ["| id | exit | wall (2-3 checks in parallel, 16 cores) | note |", "|---|---|---|---|"]
 for p in sorted(rows):
     lines.append("| %s | %d | %d s | %s |" % (p, rows[p][0], rows[p][1], rows[p][2]))
